@@ -317,3 +317,5 @@ k02c!(k02c_tree_mirror_grow, 257, 1, 11, 286, 30, 7, &[138, 138, 37]);
 k02c!(k02c_tree_mirror_shrink, 286, 30, 4, 257, 1, 4, &[138, 117]);
 k02c!(k02c_tree_mirror_exact_6, 257, 1, 6, 257, 1, 6, &[138, 117]);
 k02c!(k02c_tree_mirror_grow_5, 257, 1, 4, 286, 30, 5, &[138, 138, 37]);
+k02c!(k02c_tree_mirror_exact_8, 257, 1, 8, 257, 1, 8, &[138, 117]);
+k02c!(k02c_tree_mirror_grow_9, 257, 1, 6, 286, 30, 9, &[138, 138, 37]);
